@@ -174,17 +174,24 @@ theorem rtfv_eq (spec : Spec) (tf : TypeFn) (impl : ImplFn) (args : List Value) 
         simp only [List.append_nil] at hvar
         simp only [pass1K, List.nil_append]
         have hlen : (args.take spec.params.length).length = spec.params.length := by simp; omega
-        cases argsNil with
-        | false =>
-          simp only [Bool.not_false, if_true, hvar, hlen]
-          cases checkLoop (List.replicate (args.drop spec.params.length).length vp) (args.drop spec.params.length) 0
+        -- however the source guards the variadic loop (`varArgs != nil`, `len(varArgs) > 0`, not at all): without
+        -- variadic arguments the loop does nothing, and with some the slice is not nil
+        rcases hd : args.drop spec.params.length with _ | ⟨d, ds⟩
+        · simp only [hd] at hvar
+          simp [hvar, hlen, checkLoop, rtfv_tail, pass1K, Function_returnTypeForValues_loop1]
+          cases argsNil <;> (try simp [rtfv_tail]) <;> first | rfl | (cases tf _ <;> rfl)
+        · have hf : argsNil = false := by
+            cases argsNil with
+            | false => rfl
+            | true => simp [hn rfl] at hd
+          have hne : 0 < (args.drop spec.params.length).length := by rw [hd]; simp
+          have hne' : 0 < args.length - spec.params.length := by simpa using hne
+          subst hf
+          rw [← hd]
+          simp [hvar, hlen, hne, hne']
+          cases checkLoop (List.replicate (args.length - spec.params.length) vp) (args.drop spec.params.length) 0
             spec.params.length <;> simp only [pass1K, rtfv_tail, List.append_nil] <;>
             first | rfl | (cases tf _ <;> rfl)
-        | true =>
-          have ha := hn rfl
-          subst ha
-          simp [checkLoop, rtfv_tail]
-          cases tf _ <;> rfl
 
 @[simp] theorem call_ok {α β} (a : α) (tr : List Event) (k1 : α → M β) (k2 : CallErr → M β) :
     FnGo.call (.ok a, tr) k1 k2 = FnGo.after tr (k1 a) := rfl
